@@ -5,6 +5,7 @@ CONSTANTS
   MaxOps = 4
   OpsAllowed <- AllOps
   Busy = 2
+  CallbackKinds <- MCKinds
 INVARIANT CallbacksOnce
 INVARIANT WaitTiming
 PROPERTY Final
